@@ -112,4 +112,53 @@ def ExactOK : List FeeHop → List Nat → Prop
       ExactOK (h' :: hs) (a' :: as)
   | _, _ => True
 
+/-! ### PaymentPath::max_final_value_msat -/
+
+/-- mirrors blinded_path/payment.rs compute_aggregated_base_prop_fee on the fees `(base, prop)` of a hop
+    list given payer side first (the Rust loop runs `hops_fees.rev()`: the LAST hop is folded in first);
+    the two update statements of the loop body are GENERATED (`agg_base_step`, `agg_prop_step`);
+    `none` = `Err(())` (u64 overflow) -/
+def aggregateFees : List (Nat × Nat) → Option (Nat × Nat)
+  | [] => some (0, 0)
+  | f :: rest =>
+    match aggregateFees rest with
+    | none => none
+    | some (curBase, curProp) =>
+      match agg_base_step curBase f.1 f.2, agg_prop_step curProp f.2 with
+      | some nb, some np => some (nb, np)
+      | _, _ => none
+
+/-- what max_final_value_msat reads of a hop: candidate.fees(), effective_capacity(), the liquidity
+    already used on the candidate -/
+structure MHop where
+  base : Nat
+  prop : Nat
+  cap : EffectiveCapacity
+  used : Nat
+  deriving Repr, Inhabited
+
+inductive MaxFinal where
+  | ok (idx value : Nat)    -- Ok((lowest_value_contrib_hop, max_path_contribution_msat))
+  | err (idx : Nat)         -- Err(idx + 1): the aggregated fees of the hops after `idx` overflow
+  | panic                   -- `debug_assert!(false)`: the aggregated base fee exceeds the hop's maximum
+  deriving DecidableEq, Repr, Inhabited
+
+/-- the bound of ONE hop given the hops after it: generated `hop_max_msat` and
+    `hop_max_final_value_contribution`, clamped to u64 (`try_into().unwrap_or(u64::MAX)`) -/
+def hopContribution (pow : Nat) (h : MHop) (rest : List MHop) : Option (Option Nat) :=
+  match aggregateFees (rest.map fun r => (r.base, r.prop)) with
+  | none => none
+  | some (b, p) => some ((hop_max_final_value_contribution (hop_max_msat h.cap pow h.used) b p).map (Nat.min · U64_MAX))
+
+/-- mirrors the loop of PaymentPath::max_final_value_msat (hop `idx` is the head of the remaining list) -/
+def maxFinalGo (pow : Nat) : Nat → List MHop → Nat × Nat → MaxFinal
+  | _, [], best => .ok best.1 best.2
+  | idx, h :: rest, best =>
+    match hopContribution pow h rest with
+    | none => .err (idx + 1)
+    | some none => .panic
+    | some (some c) => maxFinalGo pow (idx + 1) rest (if c ≤ best.2 then (idx, c) else best)
+
+def maxFinalValue (pow : Nat) (hops : List MHop) : MaxFinal := maxFinalGo pow 0 hops (0, U64_MAX)
+
 end Ldk.RouteFees
